@@ -360,8 +360,11 @@ Definition oofs_finalize (other : N) s : state :=
   match find_oofs other s with
   | None => panic s
   | Some o =>
-    let s := upd_oofs other (fun o => mkOofs (of_other o) (of_seq o) (of_client o) (of_owner o) (of_handle o) (of_sa o) (of_rd o) (of_wr o) false) s in
-    gc_oofs other (pool_close (of_handle o) s)
+    (* a second removeFinalize of the same object dereferences its nil openOwner *)
+    if of_live o then
+      let s := upd_oofs other (fun o => mkOofs (of_other o) (of_seq o) (of_client o) (of_owner o) (of_handle o) (of_sa o) (of_rd o) (of_wr o) false) s in
+      gc_oofs other (pool_close (of_handle o) s)
+    else panic s
   end.
 
 (* ---- open-owners -------------------------------------------------------- *)
